@@ -235,7 +235,7 @@ def _host_with_queues(n_acl, n_le):
 
 
 @harness(pre=['1 <= n_le <= 3 and 1 <= n_acl <= 3 and 1 <= sends <= 4 and 0 <= c0 <= 3 and 0 <= c1 <= 3', '3 <= hx <= 4', '0 <= pos <= 2'],
-         family='host-wiring', grid={'n_le': [1, 2], 'n_acl': [2], 'sends': [1, 3], 'c0': [0, 1, 3]}, timeout=(20, 120),
+         family='host-wiring', grid={'n_le': [1, 2], 'n_acl': [2], 'sends': [1, 3], 'c0': [0, 1, 3]}, timeout=(90, 240),
          kernels=('bumble.host.Host.on_hci_number_of_completed_packets_event', 'bumble.host.Host.get_data_packet_queue', 'bumble.host.Host.send_acl_sdu') + K_QUEUE,
          bounds='one LE and one BR/EDR connection, 1..4 one-fragment SDUs on each, one Number_Of_Completed_Packets event with symbolic counts and a third (unknown) handle listed first, second or last (symbolic)')
 def host_completion_event(n_le: int, n_acl: int, sends: int, c0: int, c1: int, hx: int, pos: int) -> bool:
